@@ -84,7 +84,7 @@ theorem tooLow_total {θ : Nat} {arr1 : List S} {pl pd : Nat} (hinv : TInv pd θ
   have hwf := hinv.wf sj hsjarr
   have hmemres : ∀ x, x ∈ restoreOrdering (arr1.set r.1 (sj.seek after)) r.1 → x = sj.seek after ∨ x ∈ arr1 :=
     fun x hx => mem_of_set ((restoreOrdering_perm _ _).subset hx)
-  refine ⟨⟨set_restore_sorted arr1 hinv.sorted r.1 sj _ hget (seek_doc_ge sj hwf.wf after), ?_, ?_, ?_⟩, ?_⟩
+  refine ⟨⟨set_restore_sorted arr1 hinv.sorted r.1 sj _ hget (seek_doc_ge sj hwf after), ?_, ?_, ?_⟩, ?_⟩
   · intro x hx
     rcases hmemres x hx with rfl | hx
     · exact hwf.seek after
@@ -95,15 +95,15 @@ theorem tooLow_total {θ : Nat} {arr1 : List S} {pl pd : Nat} (hinv : TInv pd θ
       rw [seek_blockIdx]
       have h1 : (sj.seek after).skip ≤ sj.blockIdx after :=
         seek_skip_le sj after (by rw [hsk]; exact blockIdx_mono sj (by omega))
-      have h2 : after ≤ (sj.seek after).doc := seek_doc_ge_target sj hwf.wf after (by omega)
+      have h2 : after ≤ (sj.seek after).doc := seek_doc_ge_target sj hwf after (by omega)
       exact Nat.le_trans h1 (blockIdx_mono sj (by omega))
     · exact hinv.j x hx
   · intro d hd
     rw [massLe_perm (restoreOrdering_perm _ _) d]
-    exact Nat.le_trans (massLe_set_le hget _ (seek_maxScore sj after) (seek_doc_ge sj hwf.wf after) d) (hinv.dead d hd)
+    exact Nat.le_trans (massLe_set_le hget _ (seek_maxScore sj after) (seek_doc_ge sj hwf after) d) (hinv.dead d hd)
   · rw [lenSum_perm (restoreOrdering_perm _ _)]
     have h1 := lenSum_set hget (sj.seek after)
-    have h2 := seek_len_lt sj hwf.wf after (by omega) (by omega)
+    have h2 := seek_len_lt sj hwf after (by omega) (by omega)
     omega
 
 end TantivyModel.BlockWand
